@@ -144,7 +144,11 @@ func (p SpendPolicy) Verify(height uint64, medianTimestamp time.Time, sigHash Ha
 			}
 			return fmt.Errorf("height (%v) not above %v", height, uint64(p))
 		case PolicyTypeAfter:
-			if medianTimestamp.After(time.Time(p)) {
+			// compare Unix times: a time.Time built from one of the last
+			// 62135596800 seconds of int64 wraps around internally, and
+			// Time.After would see a moment in the distant past
+			t := time.Time(p)
+			if ms, ts := medianTimestamp.Unix(), t.Unix(); ms > ts || (ms == ts && medianTimestamp.Nanosecond() > t.Nanosecond()) {
 				return nil
 			}
 			return fmt.Errorf("median timestamp (%v) not after %v", medianTimestamp, time.Time(p))
